@@ -39,6 +39,8 @@ PARTIAL = ["Via sent-by is not part of the RFC 3261-style key in ezk (the proper
 COOKIE = "z9hG4bK"
 BRANCHES = ["z9hG4bKa", "z9hG4bKb", "z9hG4bK", "Z9HG4BKa", "old1", "-"]
 METHODS = ["INVITE", "ACK", "CANCEL", "OPTIONS", "BYE"]
+# top-Via sent-by values ("~" stands for the colon in front of a port): two hosts, and one host with no / the default / two other ports
+SENT_BY = ["h1", "h1", "h2", "h1~5070", "h1~5080", "h1~5060"]
 
 
 def fold(m):
@@ -145,7 +147,7 @@ def gen_history(rng, length):
             lm = rng.choice(METHODS)
             cm = lm if rng.random() < 0.85 else rng.choice(METHODS)
             br = rng.choice(BRANCHES)
-            ev = "M:q:%s:%s:%d:%s:%s:%s:%s" % (lm, cm, rng.choice([1, 2]), br, rng.choice("xy"), rng.choice(["f", "g", "-"]), rng.choice(["h1", "h2:5060"]))
+            ev = "M:q:%s:%s:%d:%s:%s:%s:%s" % (lm, cm, rng.choice([1, 2]), br, rng.choice("xy"), rng.choice(["f", "g", "-"]), rng.choice(SENT_BY))
         elif r < 0.72 and ref.clients:
             idx = rng.choice(sorted(ref.clients))
             kind = ref.table[ref.clients[idx]]["kind"]
